@@ -1219,6 +1219,13 @@ M('C19', 'mps2lat_values_masked: ceiling written with double negation (equivalen
 M('C19', 'multi_coupling_shape clips the box corner to <= 0 (round-4 seed a)', LAT,
   "            shift_strength[a] = min_dx  # note: can be positive!", "            shift_strength[a] = min(0, min_dx)", 'GEOM-box-corner')
 
+M('C20', 'Worker.__exit__ joins only without a pending exception (round-4 seed b)', TH,
+  "            self.exit.set()\n            self.worker_thread.join()\n", "            self.exit.set()\n            if exc_type is None:\n                self.worker_thread.join()\n",
+  'SYNC-exit-join')
+M('C20', 'preload queues a second load for a key in flight (round-4 seed a)', CA,
+  "        if key in self._waiting_for_load or key in self._loaded:\n            return\n", "        if key in self._loaded:\n            return\n",
+  'TS-no-duplicate-load')
+
 # ---------------------------------------------------------------- C16 / C19
 M('C16', 'GMRES restart: relative residual norm used for normalisation (round-3 seed b)', KRY,
   """        self.total_error.append([npc.norm(self.rs[-1]) / self.b_norm])
